@@ -96,6 +96,24 @@ fn c09_space<K: Kit>(spec: &Spec, lat: &[V], triples: bool, rep: &mut Report) {
             if i == j && x > tol {
                 viol(rep, "C09", kit, "identity", spec, format!("d(a,a) = {x} > {tol}"), det());
             }
+            // the distance is a function of the two configurations: neither whether both arguments are the very
+            // same object, nor what the space object was asked before, may matter (bit for bit)
+            if i == j {
+                let copy = st[i].clone();
+                let y = sp.distance(&st[i], &copy);
+                rep.count("aliasing_variants", 1);
+                if y.to_bits() != x.to_bits() {
+                    viol(rep, "C09", kit, "result-depends-on-argument-aliasing", spec, format!("d(a,a) = {x} with the same object on both sides, {y} with a copy"), det());
+                }
+            }
+            {
+                let fresh = K::build(spec);
+                let y = fresh.distance(&st[i], &st[j]);
+                rep.count("fresh_space_variants", 1);
+                if y.to_bits() != x.to_bits() {
+                    viol(rep, "C09", kit, "result-depends-on-call-history", spec, format!("a space object that answered other queries before says {x}, a fresh one {y}"), det());
+                }
+            }
             if let Some(dm) = diameter_bound(spec) {
                 if x > dm * (1.0 + 2.0 * f64::EPSILON) {
                     viol(rep, "C09", kit, "diameter", spec, format!("distance {x} exceeds the manifold diameter {dm}"), det());
@@ -255,6 +273,16 @@ fn c10_space<K: Kit>(spec: &Spec, lat: &[V], ts: &[f64], rep: &mut Report) {
                     if K::bits(&o2) != K::bits(&out) {
                         viol(rep, "C10", kit, "result-depends-on-output-state", spec, format!("interpolating into an output state that held {} gives {}", K::to_v(other).json(), K::to_v(&o2).json()), det());
                         break;
+                    }
+                }
+                // ... and neither must what the space object was asked before (a fresh object gives the same bits)
+                {
+                    let fresh = K::build(spec);
+                    let mut o3 = st[i].clone();
+                    fresh.interpolate(&st[i], &st[j], t, &mut o3);
+                    rep.count("fresh_space_variants", 1);
+                    if K::bits(&o3) != K::bits(&out) {
+                        viol(rep, "C10", kit, "result-depends-on-call-history", spec, format!("a space object that interpolated other pairs before gives this result, a fresh one {}", K::to_v(&o3).json()), det());
                     }
                 }
                 if !ov.all_finite() {
